@@ -178,7 +178,7 @@ func EvalVariant(prop, vfile, repo, verif string) Outcome {
 // RunBenign evaluates the property on the three behaviour-preserving transformations
 // (each in its own process, from an in-memory overlay).
 func RunBenign(cfg Config) []Outcome {
-	modes := []string{"rename", "log", "logall"}
+	modes := []string{"rename", "log", "logall", "negif", "guard"}
 	out := make([]Outcome, len(modes))
 	var wg sync.WaitGroup
 	for i, m := range modes {
@@ -212,6 +212,8 @@ func EvalBenign(prop, mode, repo, verif string) Outcome {
 		ov, n, err = LogOverlay(repo, false)
 	case "logall":
 		ov, n, err = LogOverlay(repo, true)
+	case "negif", "guard":
+		ov, n, err = RestructureOverlay(repo, mode)
 	default:
 		return Outcome{Name: mode, Outcome: "error", Detail: "unknown mode"}
 	}
